@@ -341,18 +341,28 @@ def scan_nd(model, info, art):
                 os.environ["BLUESKY_PREDECLARE"] = "1"
             else:
                 os.environ.pop("BLUESKY_PREDECLARE", None)
+            md_given = {}
+            if info.get("md") == "user":
+                md_given = {"purpose": "user"}
+            elif info.get("md") == "caller":
+                # as in the proof: a calling plan's own description of the scan (values from the counter-model where it has them)
+                md_given = {"plan_name": "some_plan", "motors": tuple(m.name for m in reversed(motors)), "shape": (_i(model, "md_shape", 7),),
+                            "extents": ([_r(model, "md_lo", -1.5), _r(model, "md_hi", 2.5)],), "snaking": (False,), "num_points": _i(model, "md_num_points", 41),
+                            "num_intervals": _i(model, "md_num_intervals", 40), "plan_args": {"args": [_r(model, "md_arg", 0.25)]},
+                            "plan_pattern_args": {"num": _i(model, "md_num", 9)}}
 
             def build(side, fn):
                 ps = fn("per_step")
                 ds = fn("declare_stream", _by_name)
                 if side == "impl":
                     bps.declare_stream = ds
+                    kw ={"md": dict(md_given)} if md_given else {}
                     if how == "default":
                         def one_nd_step(detectors, step, pos_cache, take_reading=None):
                             return ps(detectors, step, pos_cache)
                         bps.one_nd_step = one_nd_step
-                        return bp.scan_nd(dets, cyc), None
-                    return bp.scan_nd(dets, cyc, per_step=_with_signature(ps, how)), None
+                        return bp.scan_nd(dets, cyc, **kw), None
+                    return bp.scan_nd(dets, cyc, per_step=_with_signature(ps, how), **kw), None
                 declare = ds(*motors, *dets, name="primary") if predeclare else None
                 if how == "1d":
                     return ref["ref_scan_1d_points"](dets, motors[0], [list(p.values())[0] for p in cyc], ps, declare), None
@@ -362,7 +372,10 @@ def scan_nd(model, info, art):
                 md = tr.rec.get("md")
                 if md is None:
                     return None
-                if md.get("num_points") != len(cyc) or md.get("num_intervals") != len(cyc) - 1:
+                lost = {k: md.get(k, "<missing>") for k, v in md_given.items() if not _same_md(md.get(k, "<missing>"), v)}
+                if lost:
+                    return f"entries of the md argument {md_given} were recorded as {lost}"
+                if "num_points" not in md_given and (md.get("num_points") != len(cyc) or md.get("num_intervals") != len(cyc) - 1):
                     return f"recorded num_points={md.get('num_points')} num_intervals={md.get('num_intervals')} for a trajectory of {len(cyc)} points"
                 if set(md.get("motors", ())) != {m.name for m in motors} or tr.rec.get("stage", [])[:2] != dets or set(tr.rec.get("stage", [])[2:]) != set(motors):
                     return f"motors / staged devices recorded wrongly: {md.get('motors')}, {tr.rec.get('stage')}"
@@ -424,6 +437,13 @@ def _one_motor_scan(model, info, art, which):
                     return None
                 if md.get("num_points") != num or md.get("motors") != [motors[0].name] or tr.rec.get("stage") != dets + [motors[0]]:
                     return f"recorded num_points={md.get('num_points')} motors={md.get('motors')} staged={tr.rec.get('stage')} for {num} points"
+                pa = dict(md.get("plan_args") or {})
+                pa.pop("per_step", None)
+                want = {"detectors": [repr(d) for d in dets], "num": num, "start": start, "stop": stop, "motor": repr(motors[0])}
+                if (md.get("num_intervals") != num - 1 or not _same_md(pa, want) or "per_step" not in (md.get("plan_args") or {})
+                        or not _same_md(md.get("plan_pattern_args"), {"start": start, "stop": stop, "num": num})):
+                    return (f"recorded num_intervals={md.get('num_intervals')} plan_args={md.get('plan_args')} plan_pattern_args={md.get('plan_pattern_args')} "
+                            f"for {which}(start={start}, stop={stop}, num={num})")
                 return None
             runs.append(_bisim(inf, build, md_check))
     finally:
@@ -560,12 +580,19 @@ def inner_product(model, info, art):
     return ("confirmed" if d else "contradicted"), f"inner_product(num={num}, {ax}): " + (d or "documented trajectory")
 
 
-def _lists(model, n, equal=True):
+def _lists(model, n, equal=True, info=None):
+    """the counter-model's position lists where it describes them, else fixed non-monotone lists of the model's lengths"""
     L0 = _i(model, "len_list0", 3, 1, 4)
     out = []
     for i in range(n):
+        ml = _model_list(model, info or {}, i)
+        if ml is not None:
+            out.append(ml)
+            continue
         L = L0 if equal else _i(model, f"len_list{i}", 2 + i, 1, 4)
         out.append([round(0.5 + 1.5 * k + 10 * i, 3) if k % 2 == 0 else round(-0.25 * k + 10 * i, 3) for k in range(L)])
+    if equal and len({len(l_) for l_ in out}) != 1:
+        return _lists({}, n, equal)
     return out
 
 
@@ -657,13 +684,89 @@ def _delegation(info, qual_name, make_plan, hook_module, hook_name, returns=True
     return _first_confirmed(runs)
 
 
-def _plan_verdict(checks, deleg):
-    probs = [c for c in checks if c]
-    if probs:
-        return "confirmed", "; ".join(probs)
-    if deleg[0] == "confirmed":
+def _plan_verdict(checks, deleg, info=None):
+    """checks: problems found on the real code, each a text (clause 'trajectory') or a pair (clause, text); a counterexample of
+    one of the separately named metadata clauses (info['clause'] = args / counts / md) is confirmed only by a problem of that clause"""
+    clause = (info or {}).get("clause", "trajectory")
+    probs = [(c if isinstance(c, tuple) else ("trajectory", c)) for c in checks if c]
+    mine = [t for cl, t in probs if cl == clause]
+    if mine:
+        return "confirmed", "; ".join(mine)
+    if clause == "trajectory" and deleg[0] == "confirmed":
         return deleg
-    return "contradicted", "trajectory, readings and metadata as documented; " + deleg[1]
+    other = "; ".join(f"[{cl}] {t}" for cl, t in probs)
+    return "contradicted", f"clause '{clause}' holds on the real code" + (f" (other clauses: {other})" if other else "; trajectory, readings and metadata as documented") + "; " + deleg[1]
+
+
+def _md_args_problems(md, plan, dets, md_args, points, extra=None, pattern_args=None):
+    """the recorded plan_args / plan_pattern_args / counts against the call that was made (clauses 'args' and 'counts')"""
+    out = []
+    if md is None:
+        return out
+    want = {"detectors": [repr(d) for d in dets], **(extra or {}), "args": md_args, "per_step": "None"}
+    got = md.get("plan_args")
+    if not _same_md(got, want):
+        out.append(("args", f"{plan}: plan_args recorded as {got!r}, the call was {want!r}"))
+    want_pa = {"args": md_args, **(pattern_args or {})}
+    if not _same_md(md.get("plan_pattern_args"), want_pa):
+        out.append(("args", f"{plan}: plan_pattern_args recorded as {md.get('plan_pattern_args')!r}, the call was {want_pa!r}"))
+    if md.get("num_points") != points or md.get("num_intervals") != points - 1:
+        out.append(("counts", f"{plan}: num_points={md.get('num_points')} num_intervals={md.get('num_intervals')} recorded for {points} points"))
+    return out
+
+
+def _same_md(a, b):
+    if isinstance(a, dict) and isinstance(b, dict):
+        return set(a) == set(b) and all(_same_md(a[k], b[k]) for k in a)
+    if isinstance(a, (list, tuple)) and isinstance(b, (list, tuple)):
+        return len(a) == len(b) and all(_same_md(x, y) for x, y in zip(a, b))
+    if isinstance(a, (list, tuple, dict)) or isinstance(b, (list, tuple, dict)):
+        return False
+    if isinstance(a, bool) or isinstance(b, bool) or isinstance(a, str) or isinstance(b, str) or a is None or b is None:
+        return type(a) is type(b) and a == b
+    try:
+        return float(a) == float(b)
+    except (TypeError, ValueError):
+        return a == b
+
+
+def _model_list(model, info, i):
+    """the position list the counter-model describes: its length (model len_list<i> or info['lens'][i]), the places that were
+    read (list<i>_at_<k> from the front, list<i>_at_m<k> from the back), its minimum / maximum and where they are; places the
+    model says nothing about are filled with the midpoint.  None if the model does not describe a list (or a very long one)."""
+    lens = info.get("lens")
+    if lens is not None and i < len(lens):
+        L = int(lens[i])
+    elif model.get(f"len_list{i}") is not None:
+        L = int(parse_num(model[f"len_list{i}"]))
+    else:
+        return None
+    if not 1 <= L <= 12:
+        return None
+    given = {}
+    for name, v in model.items():
+        if name.startswith(f"list{i}_at_m"):
+            k = L - int(name[len(f"list{i}_at_m"):])
+        elif name.startswith(f"list{i}_at_") and name[len(f"list{i}_at_"):].isdigit():
+            k = int(name[len(f"list{i}_at_"):])
+        else:
+            continue
+        if 0 <= k < L:
+            given[k] = float(parse_num(v))
+    lo, hi = model.get(f"min_list{i}"), model.get(f"max_list{i}")
+    if lo is not None and hi is not None:
+        lo, hi = float(parse_num(lo)), float(parse_num(hi))
+        out = [(lo + hi) / 2] * L
+        kmin, kmax = _i(model, f"argmin_list{i}", 0, 0, L - 1), _i(model, f"argmax_list{i}", L - 1, 0, L - 1)
+        out[kmin], out[kmax] = lo, hi
+        for k, v in given.items():
+            out[k] = v
+        if min(out) != lo or max(out) != hi:
+            return None
+        return out
+    if lens is not None or len(given) == L:
+        return [given.get(k, 0.0) for k in range(L)]       # a position the model leaves out is unconstrained
+    return None
 
 
 def _per_step(info):
@@ -678,15 +781,25 @@ def scan(model, info, art):
     ax = _axes(model, n)
     flat = [x for m, a in zip(motors, ax) for x in (m, a["start"], a["stop"])]
 
+    given = {"plan_name": "x2x_scan", "plan_args": {"num": 17, "motor1": "a"}, "purpose": "user"} if info.get("md") else None
+
     def make():
-        return bp.scan(dets, *flat, num) if info.get("num") != "keyword num" else bp.scan(dets, *flat, num=num)
+        kw = {"md": dict(given)} if given else {}
+        return bp.scan(dets, *flat, num, **kw) if info.get("num") != "keyword num" else bp.scan(dets, *flat, num=num, **kw)
     pts, md, problems = _dry_run(make())
     want = _zip_points([(m.name, list(np.linspace(a["start"], a["stop"], num))) for m, a in zip(motors, ax)])
     checks = [_same_points(pts, want)] + problems
     if md is not None and (md.get("num_points") != len(want) or tuple(md.get("motors", ())) != tuple(m.name for m in motors)):
         checks.append(f"metadata num_points={md.get('num_points')} motors={md.get('motors')} for {len(want)} points over {[m.name for m in motors]}")
-    v, d = _plan_verdict(checks, _delegation(info, "scan", make, bp, "scan_nd"))
-    return v, f"scan({ax}, num={num}): " + d
+    md_args = [x for m, a in zip(motors, ax) for x in (repr(m), a["start"], a["stop"])]
+    meta = _md_args_problems(md, "scan", dets, md_args, len(want), extra={"num": num}, pattern_args={"num": num})
+    if given and md is not None:
+        meta = [p for p in meta if "plan_args recorded" not in p[1]]
+        lost = {k: md.get(k) for k, v in given.items() if not _same_md(md.get(k), v)}
+        if lost:
+            meta += [("md", f"scan: entries of the md argument {given} recorded as {lost}"), ("args", f"scan: plan_args of the md argument recorded as {md.get('plan_args')}")][:1 + ("plan_args" in lost)]
+    v, d = _plan_verdict(checks + meta, _delegation(info, "scan", make, bp, "scan_nd"), info)
+    return v, f"scan({ax}, num={num}{', md=' + str(given) if given else ''}): " + d
 
 
 def inner_product_scan(model, info, art):
@@ -709,8 +822,7 @@ def list_scan(model, info, art):
     from bluesky import plans as bp
     n = info.get("n", 2)
     motors, dets = _devices(n)
-    L = _i(model, "len_list0", 3, 1, 4)
-    lists = [[float(k) * (1 if k % 2 else -1) + 10 * i for k in range(L)] for i in range(n)]
+    lists = _lists(model, n, equal=True, info=info)
     flat = [x for m, l_ in zip(motors, lists) for x in (m, l_)]
 
     def make():
@@ -720,7 +832,9 @@ def list_scan(model, info, art):
     checks = [_same_points(pts, want)] + problems
     if md is not None and (md.get("num_points") != len(want) or list(md.get("motors", ())) != [m.name for m in motors]):
         checks.append(f"metadata num_points={md.get('num_points')} motors={md.get('motors')} for {len(want)} points")
-    v, d = _plan_verdict(checks, _delegation(info, "list_scan", make, bp, "scan_nd"))
+    md_args = [x for m, l_ in zip(motors, lists) for x in (repr(m), l_)]
+    checks += _md_args_problems(md, "list_scan", dets, md_args, len(want))
+    v, d = _plan_verdict(checks, _delegation(info, "list_scan", make, bp, "scan_nd"), info)
     return v, f"list_scan(lists {lists}): " + d
 
 
@@ -749,7 +863,9 @@ def grid_scan(model, info, art):
             checks.append(f"metadata extents={md.get('extents')} for axes {ax}")
         if [bool(s) for s in md.get("snaking", ())] != [bool(f) for f in flags]:
             checks.append(f"metadata snaking={md.get('snaking')} but axes snaked {flags}")
-    v, d = _plan_verdict(checks, _delegation(info, "grid_scan", make, bp, "scan_nd"))
+    md_args = [x for i, (m, a) in enumerate(zip(motors, ax)) for x in [repr(m), a["start"], a["stop"], a["num"]] + ([bool(flags[i])] if i else [])]
+    checks += _md_args_problems(md, "grid_scan", dets, md_args, len(want))
+    v, d = _plan_verdict(checks, _delegation(info, "grid_scan", make, bp, "scan_nd"), info)
     return v, f"grid_scan(axes {ax}, pattern {pattern}, snake {flags} via {info.get('snake_axes')}): " + d
 
 
@@ -757,7 +873,7 @@ def list_grid_scan(model, info, art):
     from bluesky import plans as bp
     n = info.get("n", 2)
     motors, dets = _devices(n)
-    lists = _lists(model, n, equal=False)
+    lists = _lists(model, n, equal=False, info=info)
     snake_axes, flags, given = _snake_arg(info, motors)
     kw = {"snake_axes": snake_axes} if given else {}
     flat = [x for m, l_ in zip(motors, lists) for x in (m, l_)]
@@ -771,8 +887,13 @@ def list_grid_scan(model, info, art):
         if md.get("num_points") != len(want) or tuple(md.get("shape", ())) != tuple(len(l_) for l_ in lists):
             checks.append(f"metadata num_points={md.get('num_points')} shape={md.get('shape')} for lists of lengths {[len(l_) for l_ in lists]}")
         if [list(e) for e in md.get("extents", ())] != [[min(l_), max(l_)] for l_ in lists]:
-            checks.append(f"metadata extents={md.get('extents')} for lists {lists}")
-    v, d = _plan_verdict(checks, _delegation(info, "list_grid_scan", make, bp, "scan_nd"))
+            checks.append(f"metadata extents={md.get('extents')} for lists {lists}: not the lowest / highest position of each axis")
+        sa = repr(snake_axes if given else False)
+        if md.get("snake_axes") != sa:
+            checks.append(("args", f"list_grid_scan: snake_axes recorded as {md.get('snake_axes')!r}, requested {sa}"))
+    md_args = [x for m, l_ in zip(motors, lists) for x in (repr(m), l_)]
+    checks += _md_args_problems(md, "list_grid_scan", dets, md_args, len(want), pattern_args={"snake_axes": repr(snake_axes if given else False)})
+    v, d = _plan_verdict(checks, _delegation(info, "list_grid_scan", make, bp, "scan_nd"), info)
     return v, f"list_grid_scan(lists {lists}, snake_axes={info.get('snake_axes')} {flags}): " + d
 
 
@@ -808,7 +929,10 @@ def x2x_scan(model, info, art):
         bpp.reset_positions_decorator, bpp.relative_set_decorator = saved
     if given.get("reset") != motors or given.get("relative") != motors:
         checks.append(f"relative / reset wrappers were given {given}, documented: both motors")
-    v, d = _plan_verdict(checks, deleg)
+    want_args = {"detectors": [repr(x) for x in dets], "motor1": "motor1", "motor2": "motor2", "start": start, "stop": stop, "num": num, "per_step": "None"}
+    if md is not None and not _same_md(md.get("plan_args"), want_args):
+        checks.append(("args", f"x2x_scan: plan_args recorded as {md.get('plan_args')!r}, the call was {want_args!r}"))
+    v, d = _plan_verdict(checks, deleg, info)
     return v, f"x2x_scan(start={start}, stop={stop}, num={num}) from {origin}: " + d
 
 
